@@ -89,3 +89,17 @@ fn c17_neg_req_bytes() {
     kani::cover!(flag == 1 && protocols == 3, "restricted admin, SSL|HYBRID");
     forget(r); forget(m);
 }
+
+/// C04/C14: X.224 data header bytes
+#[kani::proof]
+#[kani::unwind(12)]
+#[kani::stub(std::collections::hash_map::RandomState::new, fixed_random_state)]
+fn c04_x224_header() {
+    let h = x224_header();
+    let mut w = FixedWriter::<8>::new();
+    let r = h.write(&mut w);
+    assert!(r.is_ok() && w.len == 3 && h.length() == 3, "3 bytes");
+    assert!(w.out[0] == 2 && w.out[1] == 0xF0 && w.out[2] == 0x80, "02 F0 80");
+    kani::cover!(true, "done");
+    forget(r); forget(h);
+}
